@@ -490,11 +490,8 @@ def g7(ctx):
     sw = set(C.slot_writers(crate))
     leaders = set(C.leader_union_functions(crate)) | set(C.leader_helpers(crate))
     n = 0
-    for b in crate.fns():
-        if b.id in leaders or b.id in sw:
-            continue
-        adds = [c for c in b.all_calls() if c.callee and c.callee.is_("add", "group::Group") and c.args and role_mentions_field(c.body.role_of_operand(c.args[0]), "classes")]
-        for c in adds:
+    for b, c in C.self_symmetry_sites(crate):
+        if True:
             n += 1
             sub = c.body
             # the permutation: compose(Y.m, inverse(X.m))
